@@ -257,6 +257,19 @@ struct Runner {
             }
             else if (op == "wb") guarded_block("wb", [&] { ex->write_block(); });
             else if (op == "rot") rotate(st.value("export", false), "rot", st.value("to", 0));
+            else if (op == "rotbad") {
+                // a rotation that cannot succeed: the new name lies in a directory that does not exist (a descriptor
+                // that is not open); the call reports it, the outputs published so far are not touched again
+                guarded("rotbad", [&] {
+                    if (target == "writer") {
+                        if (kind == "file") wr->rotate_output(dir + "/no-such-dir/x");
+                        else wr->rotate_output(-1);
+                    } else {
+                        if (kind == "file") ex->rotate_output(dir + "/no-such-dir/x", st.value("export", false));
+                        else ex->rotate_output(-1, st.value("export", false));
+                    }
+                });
+            }
             else if (op == "recover") recover();
             // after a failed block write the documented reaction is the recovery, at once
             if (block_exc && has_recover && op != "recover") { recover(); break; }
